@@ -229,6 +229,7 @@ def segment_refine_detection(chk, N, r, direction, normal_name, budget):
     paths = ex.run(go)
     nhits, nfail = 0, 0
     step = Fraction(1, r + 1)
+    fstep = 1.0 / (r + 1)
     for n, p in enumerate(paths):
         base = 'C15/refine/%s/path %d' % (tag, n)
         if p.exc is not None:
@@ -250,9 +251,11 @@ def segment_refine_detection(chk, N, r, direction, normal_name, budget):
                 acc = And(onk, filt)
                 conds.append(('on', k, None, acc, (T[k], X[k])))
                 for m in range(r + 1):
-                    s_lo, s_hi = m * step, (m + 1) * step
-                    g_lo = (1 - s_lo) * G[k] + s_lo * G[k + 1]
-                    g_hi = (1 - s_hi) * G[k] + s_hi * G[k + 1]
+                    # the sub-interval ends and the weights (1 - s) are formed in float64 exactly as the code forms them (1/3 is not a
+                    # double: with exact thirds the specification would differ from the code by an ulp-sized linear form)
+                    s_lo, s_hi = m * fstep, (m + 1) * fstep
+                    g_lo = (1.0 - s_lo) * G[k] + s_lo * G[k + 1]
+                    g_hi = (1.0 - s_hi) * G[k] + s_hi * G[k + 1]
                     c = spec_change(g_lo, g_hi, direction)
                     if m == 0:
                         c = And(c, Not(acc))
@@ -273,6 +276,9 @@ def segment_refine_detection(chk, N, r, direction, normal_name, budget):
                 v_false, _ = ex.prove(p, Not(c) if not isinstance(c, bool) else (not c))
                 if v_false == 'unsat':
                     taken = False
+                elif 'unknown' in (v_true, v_false):
+                    undecided = (kind, k, m, 'unknown', 'unknown')
+                    break
                 else:
                     undecided = (kind, k, m, v_true, v_false)
                     break
@@ -285,6 +291,9 @@ def segment_refine_detection(chk, N, r, direction, normal_name, budget):
                         gh = sum((Sym.lift(nrm[j]) * xh[j] for j in range(6)), Sym.const(0)) - off
                         geom += [ss >= s_lo, ss <= s_hi, gh == 0, th >= T[k], th <= T[k + 1]]
         oid = 'C15/refine/%s' % tag
+        if undecided is not None and undecided[3] == 'unknown':
+            chk.unknown(base, 'solver unknown on a specification condition')
+            continue
         if undecided is not None:
             nfail += 1
             if nfail == 1:
@@ -529,7 +538,7 @@ def main():
                SB._refine_hits_cubic, SB._order_and_dedup_hits, SB._detect_with_segment_refine, SB._compute_event_values, SB._is_vectorizable_plane_event)
     chk.bound(samples='N = 3 (quick), N = 4 (thorough): 2 resp. 3 bracketing intervals', state_dim=6, directions='{None, +1, -1}',
               normals='two concrete normals (axis, oblique) with symbolic offset (generic event path) and a concrete offset (vectorised path)',
-              cubic='N = 4, newton_max_iter <= %d, one refined crossing per call' % (2 if thorough else 1), segment_refine='0, and 1 with N = 3 on the linear dense path (also 2, and an oblique normal, in the thorough tier)')
+              cubic='N = 4, newton_max_iter <= %d, one refined crossing per call' % (2 if thorough else 1), segment_refine='0, and 1 with N = 3 on the linear dense path (also 3, and an oblique normal, in the thorough tier; only dyadic sub-interval lengths, see the comment in main)')
     chk.assume('strictly increasing sample times', 'tol_on_surface > 0, dedup tolerances >= 0 (symbolic)',
                'counting obligation: candidates separated by more than the dedup tolerances (otherwise dropping is the documented behaviour)',
                'the on-surface acceptance rule (next >= 0 or previous <= 0 for direction +1) is taken from the code comments as the specification of "samples lying on the surface"')
@@ -547,8 +556,10 @@ def main():
     for direction in (None, 1, -1):
         segment_refine_detection(chk, 3, 1, direction, 'x-axis', 600)
     if thorough:
+        # refinement counts with a dyadic sub-interval length only (1, 3): for r = 2 the code's float weights 1/3, 1 - 1/3 do not sum to
+        # one exactly, so "the hit lies on the plane" holds only up to an ulp -- rounding is outside the claim, and r = 2 is not claimed
         for direction in (None, 1, -1):
-            segment_refine_detection(chk, 3, 2, direction, 'x-axis', 2400)
+            segment_refine_detection(chk, 3, 3, direction, 'x-axis', 2400)
         # (N = 4 on the dense path was tried: 174 nonlinear goals came back `unknown` after 1.9 h, so it is not claimed)
         segment_refine_detection(chk, 3, 1, 1, 'oblique', 2400)
     return chk.finish()
